@@ -6,6 +6,7 @@ import (
 	"encoding/binary"
 	"fmt"
 	"net"
+	"sync"
 	"sync/atomic"
 	"time"
 
@@ -65,6 +66,7 @@ type IPPool struct {
 	gateway   net.IP
 	available []net.IP
 	allocated map[string]net.IP // session ID -> IP
+	mu        sync.Mutex
 }
 
 // NewIPPool creates a new IP pool
@@ -104,6 +106,15 @@ func NewIPPool(network string, gateway string) (*IPPool, error) {
 
 // Allocate allocates an IP for a session
 func (p *IPPool) Allocate(sessionID string) net.IP {
+	p.mu.Lock()
+	defer p.mu.Unlock()
+
+	// A session that asks again keeps its address (allocating a second one
+	// would orphan the first: Release only knows the latest)
+	if ip, ok := p.allocated[sessionID]; ok {
+		return ip
+	}
+
 	if len(p.available) == 0 {
 		return nil
 	}
@@ -115,6 +126,9 @@ func (p *IPPool) Allocate(sessionID string) net.IP {
 
 // Release releases an IP back to the pool
 func (p *IPPool) Release(sessionID string) {
+	p.mu.Lock()
+	defer p.mu.Unlock()
+
 	if ip, ok := p.allocated[sessionID]; ok {
 		delete(p.allocated, sessionID)
 		p.available = append(p.available, ip)
